@@ -261,6 +261,19 @@ JudgeValidatedDoc(e, o, d) ==
      /\ J("C10", e, "oneway flag of a method vs. the source and the interface",
           same => \A i \in DOMAIN pr.ns : pr.ns[i].c = "method" =>
                      o.nodes[i].ow = (pr.ns[i].ow \/ pr.ns[ItemIx(pr.ns)].ow))
+     \* what the validation rules talk about is what the SOURCE says: a tree that lost or changed the fact a rule
+     \* depends on must not excuse the diagnostics that are consistent with the changed tree
+     /\ J("C05", e, "name of a type reference vs. the name written in the source",
+          same => \A i \in DOMAIN pr.ns : (pr.ns[i].c = "type" /\ pr.ns[i].a = "named") =>
+                     (o.nodes[i].c = "type" /\ o.nodes[i].a = "named" /\ o.nodes[i].n = pr.ns[i].n))
+     /\ J("C06", e, "import / forward declaration vs. the statement written in the source",
+          same => \A i \in DOMAIN pr.ns : pr.ns[i].c \in {"imp", "fwd"} =>
+                     (o.nodes[i].c = pr.ns[i].c /\ o.nodes[i].n = pr.ns[i].n /\ o.nodes[i].a = pr.ns[i].a))
+     /\ J("C07", e, "direction of an argument vs. the direction written in the source",
+          same => \A i \in DOMAIN pr.ns : pr.ns[i].c = "arg" => (o.nodes[i].c = "arg" /\ o.nodes[i].a = pr.ns[i].a))
+     /\ J("C08", e, "kind of a type node (array / List / Map / primitive / named) vs. the source",
+          same => \A i \in DOMAIN pr.ns : pr.ns[i].c = "type" =>
+                     (o.nodes[i].c = "type" /\ o.nodes[i].a = pr.ns[i].a /\ o.nodes[i].p = pr.ns[i].p))
      /\ J("C09", e, "explicit transact code of a method vs. the code written in the source",
           same => \A i \in DOMAIN pr.ns : pr.ns[i].c = "method" => o.nodes[i].a = pr.ns[i].a)
      /\ J("C04", e, "range not well-formed after validation (offset / char boundary / line-column)",
